@@ -301,6 +301,48 @@ fn programs(family: &str) -> Vec<(String, Outcome)> {
             p("lt :: fn a, b do\n    ret a < b\nend\nstart :: fn do\n    x := true\n    y := false\n    lt(x, y)\nend\n", Outcome::Reject);
             p("inc :: fn x do\n    x + 1\nend\nstart :: fn do\n    s := 2\n    inc(s)\nend\n", Outcome::Accept);
         }
+        "lits" => {
+            // constructs applied to literals of a type they do not accept (the literal-level clauses of expression)
+            let st = |body: &str| format!("start :: fn do\n{}end\n", body);
+            p(&st("    x := 1 + \"a\"\n"), Outcome::Reject);
+            p(&st("    x := 1.5 - 1\n"), Outcome::Reject);
+            p(&st("    x := \"a\" * \"b\"\n"), Outcome::Reject);
+            p(&st("    x := 1 / \"a\"\n"), Outcome::Reject);
+            p(&st("    x := 1 == \"a\"\n"), Outcome::Reject);
+            p(&st("    x := 1 != 1.5\n"), Outcome::Reject);
+            p(&st("    x := 1 < \"a\"\n"), Outcome::Reject);
+            p(&st("    x := true <= false\n"), Outcome::Reject);
+            p(&st("    x := true and 1\n"), Outcome::Reject);
+            p(&st("    x := 1 and true\n"), Outcome::Reject);
+            p(&st("    x := \"a\" or false\n"), Outcome::Reject);
+            p(&st("    x := not 1\n"), Outcome::Reject);
+            p(&st("    if 1 do\n        print(1)\n    end\n"), Outcome::Reject);
+            p(&st("    if true do\n        print(1)\n    elif \"a\" do\n        print(2)\n    end\n"), Outcome::Reject);
+            p(&st("    x := [1, \"a\"]\n"), Outcome::Reject);
+            p(&st("    x := [1, 2, 2.5]\n"), Outcome::Reject);
+            p(&st("    x := 1()\n"), Outcome::Reject);
+            p(&st("    x := \"f\"(1)\n"), Outcome::Reject);
+            p(&st("    x := \"s\".f\n"), Outcome::Reject);
+            p(&st("    x := \"s\"[0]\n"), Outcome::Reject);
+            p(&st("    x := 1 + 2\n"), Outcome::Accept);
+            p(&st("    x := \"a\" + \"b\"\n"), Outcome::Accept);
+            p(&st("    x := 1 < 2.5\n"), Outcome::Accept);
+            p(&st("    x := true and false\n"), Outcome::Accept);
+            p(&st("    x := not true\n"), Outcome::Accept);
+            p(&st("    x := [1, 2]\n"), Outcome::Accept);
+            p(&st("    if true do\n        print(1)\n    end\n"), Outcome::Accept);
+        }
+        "case" => {
+            let arms = |a: &str| format!("{}start :: fn do\n    a := A.X 1\n    case a do\n{}    end\nend\n", enum_a, a);
+            p(&arms("        X v ->\n            print(v)\n        end\n        Y ->\n            print(2)\n        end\n"), Outcome::Accept);
+            p(&arms("        X v ->\n            print(v)\n        end\n"), Outcome::Reject);
+            p(&arms("        X v ->\n            print(v)\n        end\n        else\n            print(2)\n        end\n"), Outcome::Accept);
+            p(&arms("        X v ->\n            print(v)\n        end\n        Y ->\n            print(2)\n        end\n        Z ->\n            print(3)\n        end\n"), Outcome::Reject);
+            p(&arms("        Z ->\n            print(3)\n        end\n        else\n            print(2)\n        end\n"), Outcome::Reject);
+            p(&arms("        Y ->\n            print(2)\n        end\n        else\n            print(2)\n        end\n"), Outcome::Accept);
+            p(&format!("{}start :: fn do\n    a := 1\n    case a do\n        X ->\n            print(2)\n        end\n        else\n            print(2)\n        end\n    end\nend\n", enum_a), Outcome::Reject);
+            p(&arms("        X v ->\n            print(v + \"s\")\n        end\n        else\n            print(2)\n        end\n"), Outcome::Reject);
+        }
         "nopanic" => {
             p("B :: blob { a: int }\nstart :: fn do\n    B :: blob { a: int }\n    print(1)\nend\n", Outcome::Reject);
             p("E :: enum\n    X,\nend\nstart :: fn do\n    E :: enum\n        X,\n    end\nend\n", Outcome::Reject);
